@@ -21,7 +21,7 @@ if __name__ == '__main__':
     sys.path.insert(0, os.path.dirname(os.path.dirname(os.path.abspath(__file__))))
 
 from props import c09_docs as D
-from props.c09_docs import MAIN, tget, tset, tdel, rename_key
+from props.c09_docs import MAIN, tget, tset, rename_key
 
 WORKERS = 14
 
@@ -254,7 +254,7 @@ class Gen:
                     cname = 'array'
                 add('class-and-inherit-both', ik, _setter(p, 'class', cname), p)
                 add('wrong-type', ik + '=5', _setter(p, ik, 5), p)
-                add('wrong-type', ik + '=map', _setter(p, ik, self.lit_u8), p)
+                add('inherit-value-not-a-string', ik + '=map', _setter(p, ik, self.lit_u8), p)
                 add('unknown-alias', ik, _setter(p, ik, 'no-such-alias'), p)
         # the property holding the field type gets a value of a wrong kind
         for w in WRONG['ft']:
@@ -611,6 +611,7 @@ class Gen:
             first = list(n)[0]
             for w in WRONG['int|str-env']:
                 add('wrong-type', 'env-value=' + _short(w), _setter(p, first, w), p)
+            add('integral-float', 'env-value=1.0', _setter(p, first, 1.0), p)
 
             def ren(new):
                 def fn(doc):
@@ -1131,7 +1132,8 @@ def classify_accept(task, eff_text, base_eff):
         return 'NEW-struct-member-name-pattern-not-enforced', paths
     if c == 'unknown-property' and task['kind'] == 'trace':
         return 'NEW-trace-object-unknown-property-accepted', paths
-    if task['dialect'] == 3 and task['loc'].startswith('pcx') and c in ('wrong-type', 'class-and-inherit-both'):
+    if task['dialect'] == 3 and task['loc'].startswith('pcx') and c in ('wrong-type', 'class-and-inherit-both',
+                                                                        'inherit-value-not-a-string'):
         # config-pre-field-type-expansion looks for `field-type` at the wrong level of
         # packet-context-field-type-extra-members: partial field types there are never validated
         return 'NEW-pcx-members-partial-ft-not-validated', paths
